@@ -81,7 +81,7 @@ class C20(Check):
         n = len(quaternion_grid())
         for k in range(0, n, 40):
             out.append(("quat", k, min(n, k + 40)))
-        for obj in ("PointCloud2", "PointCloud3", "TriMesh2", "Image2", "MaskedImage2", "PointGraph2"):
+        for obj in ("PointCloud2", "PointCloud3", "TriMesh2", "Image2", "MaskedImage2", "PointGraph2", "PointCloud2-centre-on-axis", "PointCloud2-centre-at-origin", "TriMesh3-planar", "PointCloud3-centre-on-axis"):
             out.append(("centre", obj))
         out.append(("scale",))
         for shp in ((2, 2), (3, 5), (7, 4), (2, 9), (1, 6), (6, 1)):
@@ -109,6 +109,20 @@ class C20(Check):
             return PointCloud(generic_points(5, 2, self.seed, "c20"))
         if name == "PointCloud3":
             return PointCloud(generic_points(5, 3, self.seed, "c20"))
+        # boundary letters of 'the centre': a zero coordinate, the origin itself, a planar 3-D object
+        if name == "PointCloud2-centre-on-axis":
+            p = generic_points(4, 2, self.seed, "c20ax")
+            p = np.vstack([p, p * [-1.0, 1.0]])  # symmetric about the first axis: centre = (0, c)
+            return PointCloud(p)
+        if name == "PointCloud2-centre-at-origin":
+            p = generic_points(4, 2, self.seed, "c20or")
+            return PointCloud(np.vstack([p, -p]))
+        if name == "PointCloud3-centre-on-axis":
+            p = generic_points(4, 3, self.seed, "c20ax3")
+            return PointCloud(np.vstack([p, p * [-1.0, -1.0, 1.0]]))
+        if name == "TriMesh3-planar":
+            p = generic_points(5, 2, self.seed, "c20pl")
+            return TriMesh(np.hstack([p, np.zeros((5, 1))]), np.array([[0, 1, 2], [2, 3, 4]]))
         if name == "TriMesh2":
             return TriMesh(generic_points(5, 2, self.seed, "c20tm"), np.array([[0, 1, 2], [2, 3, 4]]))
         if name == "PointGraph2":
@@ -530,7 +544,7 @@ class C20(Check):
         )
 
     def alphabet_sizes(self):
-        return {"angles": len(ANGLES_DEG), "axis_angle_grid": len(axis_angle_grid()), "quaternion_grid": len(quaternion_grid()), "centre_objects": 6, "tcoord_shapes": 6}
+        return {"angles": len(ANGLES_DEG), "axis_angle_grid": len(axis_angle_grid()), "quaternion_grid": len(quaternion_grid()), "centre_objects": 10, "tcoord_shapes": 6}
 
     def assumptions(self):
         return [
